@@ -172,6 +172,24 @@ sym_file_peek(FILE *f, int64_t pos)
     return c < 0 ? 0 : c;
 }
 
+FILE *
+sym_file_unseekable(FILE *f)
+{
+    /* copy the remaining bytes into a pipe (they fit the pipe buffer at our sizes) and read from that */
+    int fds[2], c;
+    FILE *w, *r;
+    if (pipe(fds) != 0) {
+        exit(3);
+    }
+    w = fdopen(fds[1], "wb");
+    r = fdopen(fds[0], "rb");
+    while ((c = fgetc(f)) != EOF) {
+        fputc(c, w);
+    }
+    fclose(w);
+    return r;
+}
+
 #ifdef SYM_ENTRY
 int SYM_ENTRY(void);
 int
